@@ -3,7 +3,7 @@
 // (enum variant -> Vec[Sym(name), fields..], struct -> Vec[fields..]).
 
 
-pub struct ConversionError;
+// (`ConversionError` is defined in model/core.rs)
 
 /// `TryFromVal<Env, Val>`: the conversion succeeds exactly when the host value has the wanted type
 pub trait TryFromVal: Sized {
